@@ -228,7 +228,7 @@ Section Inv.
   (** *** Building quiet changes *)
   Lemma Quiet_same m0 m m' : heap m' = heap m -> log m' = log m -> dead m' = dead m -> Quiet m0 m -> Quiet m0 m'.
   Proof.
-    intros Eh El Ed HQ. eapply Quiet_trans; [exact HQ|]. unfold get. split; [rewrite Eh; reflexivity|].
+    intros Eh El Ed HQ. eapply Quiet_trans; [exact HQ|]. unfold Quiet, get. split; [rewrite Eh; reflexivity|].
     split; [intros o; rewrite Eh; reflexivity|]. split; [exists []; split; [exact El | constructor]|].
     intros o. rewrite Ed. auto.
   Qed.
@@ -241,10 +241,15 @@ Section Inv.
   Proof. apply Quiet_emit. reflexivity. Qed.
   Lemma Quiet_upd m0 o f m : (forall x, lv (f x) = lv x) -> Quiet m0 m -> Quiet m0 (upd o f m).
   Proof.
-    intros Hf HQ. eapply Quiet_trans; [exact HQ|]. unfold upd, get. cbn. split; [apply alter_length|].
+    intros Hf HQ. eapply Quiet_trans; [exact HQ|]. unfold Quiet, get.
+    change (heap (upd o f m)) with (alter f o (heap m)).
+    change (log (upd o f m)) with (log m). change (dead (upd o f m)) with (dead m).
+    split; [apply alter_length|].
     split; [|split; [exists []; split; [reflexivity|constructor] | auto]].
     intros o'. destruct (decide (o = o')) as [->|Hne].
-    - rewrite list_lookup_alter. destruct (heap m !! o'); cbn; [rewrite Hf|]; reflexivity.
+    - rewrite list_lookup_alter. unfold id in *.
+      destruct (heap m !! o') as [y|]; [|reflexivity].
+      change (Some (lv (f y)) = Some (lv y)). rewrite Hf. reflexivity.
     - rewrite list_lookup_alter_ne by exact Hne. reflexivity.
   Qed.
   Lemma Quiet_uhdr m0 o f m : (forall h, h_fin (f h) = h_fin h) -> Quiet m0 m -> Quiet m0 (uhdr o f m).
